@@ -40,6 +40,9 @@ def generate(rng, tier, index):
     if k == 11:
         return {'kind': 'surrogate_bin', 'T': rng.choice([673.15, 723.15]), 'nx': rng.randint(4, 6), 'ng': rng.randint(4, 6), 'logX': rng.random() < 0.7, 'logY': rng.random() < 0.5,
                 'twoT': rng.random() < 0.5, 'probe': [round(rng.uniform(0.1, 0.9), 3) for _ in range(3)]}
+    if k == 10 and index % 48 == 10:
+        # two precipitate phases (Al-Mg-Si): every quantity of every trained phase must come back at the training points
+        return {'kind': 'surrogate_multi2', 'n': rng.choice([2, 2, 3]), 'train': rng.choice(['both', 'both', 'second']), 'probe': [round(rng.uniform(0.2, 0.8), 3) for _ in range(2)]}
     if k == 10:
         return {'kind': 'surrogate_multi', 'T': rng.choice([1073.0, 1173.0]), 'n': rng.choice([2, 3]), 'logX': rng.random() < 0.5, 'probe': [round(rng.uniform(0.2, 0.8), 3) for _ in range(2)]}
     if k in (7, 8, 9):
@@ -64,6 +67,8 @@ def prepare(tier, recs):
         _surr_therm('bin')
     if 'surrogate_multi' in kinds:
         _surr_therm('multi')
+    if 'surrogate_multi2' in kinds:
+        _surr_therm('multi2')
 
 
 _ST = {}
@@ -77,6 +82,8 @@ def _surr_therm(which):
     if which == 'bin':
         t = BinaryThermodynamics(ds.ALZR_TDB, ['AL', 'ZR'], ['FCC_A1', 'AL3ZR'], drivingForceMethod='approximate')
         t.setDiffusivity(W._alzr_diff, 'FCC_A1')
+    elif which == 'multi2':
+        t = MulticomponentThermodynamics(ds.ALMGSI_DB, ['AL', 'MG', 'SI'], ['FCC_A1', 'MGSI_B_P', 'MG5SI6_B_DP'], drivingForceMethod='tangent')
     else:
         t = MulticomponentThermodynamics(ds.NICRAL_TDB, ['NI', 'CR', 'AL'], ['FCC_A1', 'FCC_L12'], drivingForceMethod='approximate')
     t.setDFSamplingDensity(2000)
@@ -372,13 +379,58 @@ def run_surrogate_multi(rec, F, cnt):
         shutil.rmtree(tmp, ignore_errors=True)
 
 
+def run_surrogate_multi2(rec, F, cnt):
+    from kawin.thermo import MulticomponentSurrogate
+    th = _surr_therm('multi2')
+    th.clearCache()
+    T = 448.15
+    n = rec['n']
+    xs = np.array([[a, b] for a in np.linspace(0.006, 0.010, n) for b in np.linspace(0.008, 0.012, n)])
+    phases = ['MGSI_B_P', 'MG5SI6_B_DP']
+    trained = phases if rec['train'] == 'both' else phases[1:]
+    surr = MulticomponentSurrogate(th)
+    for ph in trained:
+        surr.trainCurvature(xs, T, precPhase=ph)
+
+    def check(sobj, label):
+        for ph in trained:
+            cd = sobj.curvatureData[ph]
+            for i in range(len(cd['x'])):
+                c = sobj.curvatureFactor(cd['x'][i], cd['T'][i], precPhase=ph)
+                b = sobj.impingementFactor(cd['x'][i], cd['T'][i], precPhase=ph)
+                cnt['compared'] += 2
+                if not (close(c.mc, cd['mc'][i], 1e-6, 0) and close(c.beta, cd['beta'][i], 1e-6, 0) and close(c.c_eq_alpha, cd['xEqAlpha'][i], 1e-6, 1e-12)):
+                    F.add('C20.training_reproduction', f'{label}: curvature factors of phase {ph} at training point {i} differ from the training data', quantity='curvature', surrogate='multi2')
+                    return
+                if not close(b, cd['beta'][i], 1e-6, 0):
+                    F.add('C20.training_reproduction', f'{label}: impingementFactor(precPhase={ph}) at training point {i} = {float(np.squeeze(b))!r}, trained beta {float(cd["beta"][i])!r}', quantity='impingement', surrogate='multi2')
+                    return
+    check(surr, 'trained surrogate')
+    tmp = tempfile.mkdtemp(prefix='ksim_c20_')
+    try:
+        fn = os.path.join(tmp, 'surr.json')
+        surr.toJson(fn)
+        s2 = MulticomponentSurrogate(th)
+        s2.fromJson(fn)
+        check(s2, 'surrogate rebuilt from its file')
+        for p in rec['probe']:
+            xv = np.array([0.006 + p * 0.004, 0.008 + (1 - p) * 0.004])
+            for ph in trained:
+                a = surr.impingementFactor(xv, T, precPhase=ph); b = s2.impingementFactor(xv, T, precPhase=ph)
+                cnt['compared'] += 1
+                if not close(a, b, 1e-9, 0):
+                    F.add('C20.json_roundtrip', f'impingement factor of {ph} at x={xv.tolist()}: original {float(np.squeeze(a))!r}, rebuilt {float(np.squeeze(b))!r}', quantity='impingement', surrogate='multi2')
+    finally:
+        shutil.rmtree(tmp, ignore_errors=True)
+
+
 def execute(rec):
     F = core.Failures(cap=16)
     kind = rec['kind']
     sig = set()
     if kind.startswith('surrogate'):
         cnt = {'compared': 0}
-        (run_surrogate_bin if kind == 'surrogate_bin' else run_surrogate_multi)(rec, F, cnt)
+        {'surrogate_bin': run_surrogate_bin, 'surrogate_multi': run_surrogate_multi, 'surrogate_multi2': run_surrogate_multi2}[kind](rec, F, cnt)
         return core.result(F, sig=kind, nontrivial=cnt['compared'] >= 6, counters=cnt, digest='')
     cnt = {'save_points': 0, 'steps': 0, 'fault_crash': 0}
     if kind == 'precip':
